@@ -76,7 +76,7 @@ theorem wiring_from_configs_exact (cfgs : List (Comp × List (Port × CPort))) (
 theorem keys_from_configs (cfgs : List (Comp × List (Port × CPort))) (c : Comp) :
     c ∈ akeys (InvWiring.fromConfigs cfgs) ↔ c ∈ akeys cfgs := by
   unfold akeys
-  rw [← alookup_isSome_iff, alookup_fromConfigs, lastWrite_isSome_iff]
+  rw [← ms_alookup_isSome_iff, alookup_fromConfigs, lastWrite_isSome_iff]
 
 example : dispatch [⟨"m.A", ["x"]⟩, ⟨"m.B", ["x"]⟩] "m.B" = some ⟨"m.B", ["x"]⟩ := by decide
 
